@@ -650,7 +650,9 @@ func genSpatialTriangles(g *vlib.G) {
 					twice := math.Abs((b.X-a.X)*(c.Y-a.Y) - (b.Y-a.Y)*(c.X-a.X)) // shoelace, exact
 					L2 := math.Max(math.Max(r2.Norm2(r2.Sub(b, a)), r2.Norm2(r2.Sub(c, b))), r2.Norm2(r2.Sub(a, c)))
 					area := tri.Area()
-					if math.IsNaN(area) || math.Abs(area-twice/2) > 1e-12*twice+1e-7*L2 {
+					if math.IsNaN(area) && twice == 0 && L2 > 0 {
+						classed(t, "triangle-area-collinear-nan", fmt.Sprint("r2 ", tri), "r2 Area(%v)=NaN want 0 (collinear vertices)", tri)
+					} else if math.IsNaN(area) || math.Abs(area-twice/2) > 1e-12*twice+1e-7*L2 {
 						t.Failf("r2 Area(%v)=%v want %v", tri, area, twice/2)
 					}
 					checkDegenerate(t, "r2", fmt.Sprint(tri), twice, L2, tri.IsDegenerate)
@@ -675,7 +677,9 @@ func genSpatialTriangles(g *vlib.G) {
 					twice := math.Sqrt(r3.Norm2(cr))
 					L2 := math.Max(math.Max(r3.Norm2(ab), r3.Norm2(r3.Sub(c, b))), r3.Norm2(ac))
 					area := tri.Area()
-					if math.IsNaN(area) || math.Abs(area-twice/2) > 1e-12*twice+1e-7*L2 {
+					if math.IsNaN(area) && twice == 0 && L2 > 0 {
+						classed(t, "triangle-area-collinear-nan", fmt.Sprint("r3 ", tri), "r3 Area(%v)=NaN want 0 (collinear vertices)", tri)
+					} else if math.IsNaN(area) || math.Abs(area-twice/2) > 1e-12*twice+1e-7*L2 {
 						t.Failf("r3 Area(%v)=%v want %v", tri, area, twice/2)
 					}
 					checkDegenerate(t, "r3", fmt.Sprint(tri), twice, L2, tri.IsDegenerate)
@@ -695,7 +699,7 @@ func checkDegenerate(t *vlib.T, pkg, tri string, twiceArea, longest2 float64, f 
 	if longest2 == 0 {
 		// three coincident vertices: every vertex is at distance 0 of the (zero-length) longest side
 		if !f(1e-9) {
-			t.FailClass("triangle-isdegenerate-coincident", "%s IsDegenerate(1e-9) of %s (three coincident vertices) = false", pkg, tri)
+			classed(t, "triangle-isdegenerate-coincident", pkg+" "+tri, "%s IsDegenerate(1e-9) of %s (three coincident vertices) = false", pkg, tri)
 		}
 		return
 	}
